@@ -22,7 +22,7 @@ CFG = {
 
 
 SMALL = {
-    'templates': ['mixed_cascade', 'o2m_req', 'o2m_req_nocascade', 'o2o_req_cascade', 'self'],
+    'templates': ['mixed_cascade', 'o2m_req', 'o2m_req_nocascade', 'o2o_req_cascade', 'self', 'pkref'],
     'budget': {'quick': 9000, 'thorough': 160000},
     'monitors': CFG['monitors'],
 }
